@@ -292,10 +292,108 @@ gwf.map(conv, ['n1.txt', 'n2.txt'], name='named')
 """
 
 
+def check_map_api(problems):
+    """C19, last clause, against the real Workflow.map: one target per item, deterministic distinct names in every
+    naming mode; a name that is taken (in the workflow, or earlier in the same call) is rejected, never overwritten"""
+    from gwf import Workflow, AnonymousTarget
+    from gwf.exceptions import GWFError
+
+    def tpl(path):
+        return AnonymousTarget(inputs=[path], outputs=[path + ".out"], options={}, spec="echo x")
+
+    class Callable_:
+        def __call__(self, path):
+            return tpl(path)
+
+    tried = 0
+    items = ["run1/s1.fq", "run1/s2.fq", "run2/s1.fq", "run2/s3.fq"]
+    stem = lambda idx, t: "align_" + os.path.basename(t.inputs[0])[:-3]
+    full = lambda idx, t: "align_" + t.inputs[0].replace("/", "_")[:-3]
+    modes = [("default naming", tpl, None, [f"tpl_{i}" for i in range(4)]),
+             ("callable instance", Callable_(), None, [f"Callable__{i}" for i in range(4)]),
+             ("string naming", tpl, "foo", [f"foo_{i}" for i in range(4)]),
+             ("naming function", tpl, full, ["align_run1_s1", "align_run1_s2", "align_run2_s1", "align_run2_s3"]),
+             ("naming function with a repeated name", tpl, stem, None)]
+    for label, f, name, want in modes:
+        for pre in ((), ("tpl_1", "foo_2", "Callable__0", "align_run2_s1", "align_s3")):
+            tried += 1
+            wf = Workflow(working_dir="/w")
+            for nm in pre:
+                wf.target(nm, inputs=[], outputs=[]) << "echo pre"
+            before = dict(wf.targets)
+            clash = want is None or any(w in pre for w in want)
+            try:
+                res = wf.map(f, items, name=name)
+            except GWFError as e:
+                if not clash:
+                    problems.append(f"map ({label}, existing targets {list(pre)}): rejected although all names are free: {e}")
+                elif any(wf.targets.get(k) is not v for k, v in before.items()):
+                    problems.append(f"map ({label}): a rejected map replaced an existing target")
+                continue
+            except Exception as e:
+                problems.append(f"map ({label}, existing targets {list(pre)}): raised {type(e).__name__}: {e}")
+                continue
+            names = [t.name for t in res]
+            if clash:
+                problems.append(f"map ({label}, existing targets {list(pre)}) over {len(items)} items was accepted although "
+                                f"a name is taken twice; it returned {names}; the workflow holds {sorted(wf.targets)}")
+                continue
+            if names != want or len(res) != len(items):
+                problems.append(f"map ({label}) returned targets {names}, expected one per item: {want}")
+            if sorted(wf.targets) != sorted(list(pre) + want) or any(wf.targets[t.name] is not t for t in res):
+                problems.append(f"map ({label}): the workflow holds {sorted(wf.targets)}, expected {sorted(list(pre) + want)}")
+            for t, it in zip(res, items):
+                if list(t.inputs) != [it] or t.working_dir != "/w":
+                    problems.append(f"map ({label}): target {t.name} has inputs {t.inputs} in {t.working_dir}, item was {it!r}")
+    return tried
+
+
+def run_c03_info(seed, focus):
+    """C03, last clause: `gwf info` reports the same relations as the graph: for every target the dependencies are the
+    producers of its inputs (whatever the spelling), the dependents the exact inverse"""
+    problems, tried = [], 0
+    spelled = [T("a", [], ["a.txt"]), T("b", ["./a.txt"], ["sub/../b.txt"]), T("c", ["b.txt", "sub/../a.txt"], ["c.txt"]),
+               T("lone", [], [])]
+    for wname, targets in list(WORKFLOWS.items()) + [("spelled", spelled)]:
+        p = Project(targets)
+        try:
+            prepare(p, targets, [], time.time())
+            norm = lambda x: os.path.normpath(os.path.join(p.dir, x))
+            prod = {norm(o): t["name"] for t in targets for o in t["outputs"]}
+            deps = {t["name"]: sorted({prod[norm(i)] for i in t["inputs"] if norm(i) in prod}) for t in targets}
+            inv = {t["name"]: sorted(u for u, ds in deps.items() if t["name"] in ds) for t in targets}
+            for sel in [()] + [(t["name"],) for t in targets]:
+                tried += 1
+                code, out = p.gwf("info", *sel)
+                try:
+                    obj = json.loads(out[out.index("{"):])
+                except ValueError:
+                    problems.append(f"{wname}: gwf info {' '.join(sel)} did not print JSON (exit {code}): {out[-200:]}")
+                    break
+                want_names = sorted(sel) if sel else sorted(deps)
+                if sorted(obj) != want_names:
+                    problems.append(f"{wname}: gwf info {' '.join(sel)} describes {sorted(obj)}, selected {want_names}")
+                for nm, rec in obj.items():
+                    if sorted(rec.get("dependencies", [])) != deps.get(nm) or sorted(rec.get("dependents", [])) != inv.get(nm):
+                        problems.append(f"{wname}: gwf info reports {nm}: dependencies {sorted(rec.get('dependencies', []))} "
+                                        f"dependents {sorted(rec.get('dependents', []))}; the path-induced relation gives "
+                                        f"{deps.get(nm)} / {inv.get(nm)}")
+                if problems:
+                    break
+        finally:
+            p.close()
+        if problems:
+            break
+    return result(problems, tried, "info relations")
+
+
 def run_c19(seed, focus):
     """C19: paths mean the same wherever gwf is invoked from; map names are distinct and deterministic;
     the workflow file is found in the nearest ancestor; the state directory lives next to it"""
     problems, tried = [], 0
+    tried += check_map_api(problems)
+    if problems:
+        return result(problems, tried, "map naming")
     p = Project([], source=TEMPLATE_WF)
     try:
         for f in ("src.txt", "m1.txt", "m2.txt", "m3.txt", "n1.txt", "n2.txt"):
